@@ -1,7 +1,7 @@
 #!/usr/bin/env python3
 """seed_report.py — runs every kept seeded change (seeded/<id>/<name>/patch.diff) against the check of its property (quick tier, scratch
 worktree, /repo untouched) and writes seeded/RESULTS.md + seeded/results.json: which change is detected, how (failing input found /
-correspondence only), with the first violation lines.   python3 tools/seed_report.py [Cxx ...] [-j N]"""
+correspondence only), with the first violation lines.   python3 tools/seed_report.py [Cxx ...] [-j N] [--prefix r3]"""
 import concurrent.futures as cf, json, os, re, subprocess, sys, time
 
 ROOT = os.path.dirname(os.path.dirname(os.path.abspath(__file__)))
@@ -35,13 +35,15 @@ def main():
     args = [a for a in sys.argv[1:] if not a.startswith("-")]
     j = int(sys.argv[sys.argv.index("-j") + 1]) if "-j" in sys.argv else 2
     args = [a for a in args if not a.isdigit()]
+    prefix = sys.argv[sys.argv.index("--prefix") + 1] if "--prefix" in sys.argv else ""     # only the changes of one seeding round (e.g. r3)
+    args = [a for a in args if a != prefix]
     jobs = []
     for pid in sorted(os.listdir(os.path.join(ROOT, "seeded"))):
         if args and pid not in args: continue
         pd = os.path.join(ROOT, "seeded", pid)
         if not os.path.isdir(pd): continue
         for name in sorted(os.listdir(pd)):
-            if os.path.exists(os.path.join(pd, name, "patch.diff")): jobs.append((pid, name))
+            if os.path.exists(os.path.join(pd, name, "patch.diff")) and name.startswith(prefix): jobs.append((pid, name))
     resf = os.path.join(ROOT, "seeded", "results.json")
     results = json.load(open(resf)) if os.path.exists(resf) else {}
     with cf.ThreadPoolExecutor(max_workers=j) as ex:
